@@ -365,6 +365,14 @@ func (c *Cluster) keyed(n string, cn *fakeredis.Conn, st *connState, key string,
 	entitled := (n == t.Truth[s] && !moved) || (n == t.Migr[s] && st.asking) ||
 		(IsRepl(n) && PrimOf(n) == t.Truth[s] && ro && class == "r" && !moved)
 	switch {
+	case n == t.Migr[s] && st.asking && !IsRepl(n) && len(t.Stale[n][s]) > 0:
+		// the ASK target does not know (yet / any more) that it imports the slot: ASKING does not help, it answers MOVED
+		// according to its own stale view (rule `bounce` of EnvKeyed)
+		to := t.Stale[n][s][0]
+		if consume {
+			t.Stale[n][s] = t.Stale[n][s][1:]
+		}
+		return verdict{rep: "moved", to: to, msg: fmt.Sprintf("MOVED %d %s", real, Addr(to))}
 	case entitled:
 		if q := c.inj[id]; len(q) > 0 {
 			if consume {
@@ -460,6 +468,15 @@ func (c *Cluster) intercept(n string, cn *fakeredis.Conn, argv []string) (fakere
 		}
 		st.asking = false
 		return fakeredis.Value{}, fakeredis.Pass
+	case "ECHO":
+		// a scenario member without a key (class "n" of Cluster.tla): every node serves it, the reply names the node
+		if len(argv) == 2 && !cn.InMulti() {
+			if id, _ := ParseKey(argv[1]); id >= 0 {
+				x("cmd", id, "val", "")
+				clearAsk()
+				return fakeredis.Bulk(n + "|" + argv[1]), fakeredis.Reply
+			}
+		}
 	case "PTTL", "GET", "GETSET":
 		if len(argv) < 2 {
 			break
@@ -519,20 +536,28 @@ func (c *Cluster) intercept(n string, cn *fakeredis.Conn, argv []string) (fakere
 type srange struct {
 	lo, hi int
 	g      Group
+	failed bool // the master of the shard is listed, but not online
 }
 
+// ranges lists the reported slot ranges. A report entry without a primary but with replicas stands for a shard whose
+// master is not online (health fail / loading in CLUSTER SHARDS; CLUSTER SLOTS cannot express it and leaves the shard out).
 func (c *Cluster) ranges() []srange {
 	var out []srange
 	for s := 0; s < 4; s++ {
 		g := c.topo.Report[s]
+		failed := false
 		if g.P == "" || g.P == "-" {
-			continue
+			if len(g.RS) == 0 {
+				continue
+			}
+			g = Group{P: PrimOf(g.RS[0]), RS: g.RS}
+			failed = true
 		}
-		if k := len(out) - 1; k >= 0 && out[k].hi == s-1 && out[k].g.P == g.P {
+		if k := len(out) - 1; k >= 0 && out[k].hi == s-1 && out[k].g.P == g.P && out[k].failed == failed {
 			out[k].hi = s
 			continue
 		}
-		out = append(out, srange{s, s, g})
+		out = append(out, srange{s, s, g, failed})
 	}
 	return out
 }
@@ -550,6 +575,9 @@ func port() fakeredis.Value { p, _ := strconv.Atoi(Port); return fakeredis.Int(i
 func (c *Cluster) renderSlots(self string) fakeredis.Value {
 	var entries []fakeredis.Value
 	for _, r := range c.ranges() {
+		if r.failed {
+			continue
+		}
 		e := []fakeredis.Value{fakeredis.Int(int64(RepSlot[r.lo])), fakeredis.Int(int64(RepSlot[r.hi]))}
 		for _, n := range append([]string{r.g.P}, r.g.RS...) {
 			ne := []fakeredis.Value{c.endpoint(self, n), port(), fakeredis.Bulk("id-" + n)}
@@ -616,7 +644,14 @@ func (c *Cluster) renderShards(self string) fakeredis.Value {
 		if c.Noise.UnknownRepl {
 			reps = append(reps, node("unknown", "replica", "online", "?"))
 		}
-		master := node(p, "master", "online", p)
+		health := "online"
+		if rs[0].failed {
+			health = "fail"
+			if c.Noise.TLSPort {
+				health = "loading"
+			}
+		}
+		master := node(p, "master", health, p)
 		var nodes []fakeredis.Value
 		if c.Noise.ReplFirst {
 			nodes = append(append(nodes, reps...), master)
